@@ -53,6 +53,22 @@ pub struct UniParams {
     pub spurious_poll: u32,
     /// drivers hand a different waker to every poll (legal for executors)
     pub waker_churn: bool,
+    /// threads working through the reservation API with several reservations outstanding at a time (C08)
+    #[serde(default)]
+    pub reservers: Vec<Vec<ROp>>,
+}
+
+/// one step of a reserving thread (each thread keeps its own list of outstanding reservations, oldest first)
+#[derive(Clone, Copy, Debug, Serialize, Deserialize, PartialEq, Eq)]
+pub enum ROp {
+    Reserve,
+    /// fill (if not yet) and `try_send_reserved` my oldest / newest outstanding reservation (retried until it answers true)
+    SendOldest,
+    SendNewest,
+    /// `try_cancel_slot_reserve` my newest outstanding reservation (retried until it answers true)
+    CancelNewest,
+    /// a plain `send` (movable atomic channel: only while this thread has no reservation outstanding)
+    PlainSend,
 }
 
 #[derive(Clone, Copy, Debug, PartialEq, Eq)]
@@ -180,6 +196,139 @@ pub fn producer_thread(ch: ChanArc, shared: Arc<Mutex<Shared>>, t: usize, ops: V
     shared.lock().unwrap().producers_active -= 1;
 }
 
+pub fn reserver_id(thread: usize, seq: usize) -> u32 {
+    0x4000 | (((thread + 1) as u32) << 8) | (seq as u32 + 1)
+}
+
+/// A thread using the reservation API with several reservations outstanding. Sent slots are recorded as accepted
+/// `Entry::Reserve` sends, cancelled ones (and reservations refused for lack of room) as rejected ones.
+pub fn reserver_thread(ch: ChanArc, shared: Arc<Mutex<Shared>>, t: usize, ops: Vec<ROp>) {
+    struct Res {
+        slot: usize,
+        id: u32,
+        filled: bool,
+        inv: u64,
+    }
+    let kind = ch.kind();
+    let thread = 20 + t;
+    let mut out: Vec<Res> = vec![];
+    let mut seq = 0usize;
+    let push = |shared: &Arc<Mutex<Shared>>, id: u32, inv: u64, accepted: bool, entry: Entry| {
+        let ret = ctx::stamp();
+        if accepted {
+            ctx::with_ctx(|c| {
+                c.ledger.sent_done.insert(id);
+            });
+        }
+        shared.lock().unwrap().events.push(Ev { thread, kind: EvKind::SendOp(entry), id, inv, ret, accepted, ended: false, intact: true, setter_invoked_on_reject: false, addr: 0, wakes_delivered: 0, wake_misses: 0 });
+    };
+    let resolve = |ch: &ChanArc, shared: &Arc<Mutex<Shared>>, mut r: Res, cancel: bool| {
+        if cancel {
+            // pooled kinds destroy the slot's content when it is cancelled: it must be initialised; the movable ring
+            // never destroys it: nothing needing a destructor may have been written
+            if kind != Kind::UniMoveAtomic && !r.filled {
+                ch.fill(r.slot, r.id);
+                r.filled = true;
+            }
+            ctx::op_mark("try_cancel_slot_reserve");
+            let mut spins = 0u32;
+            while !ch.cancel_reserved(r.slot) {
+                harness_yield();
+                spins += 1;
+                if ctx::aborted() {
+                    return;
+                }
+                if spins > 50_000 {
+                    panic!("harness: try_cancel_slot_reserve never answered true");
+                }
+            }
+            ctx::op_mark("");
+            ctx::trace(|| format!("reserver {} cancelled {:#x}", t, r.id));
+            push(shared, r.id, r.inv, false, Entry::Reserve);
+        } else {
+            if !r.filled {
+                ch.fill(r.slot, r.id);
+            }
+            ctx::op_mark("try_send_reserved");
+            let mut spins = 0u32;
+            while !ch.send_reserved(r.slot) {
+                harness_yield();
+                spins += 1;
+                if ctx::aborted() {
+                    return;
+                }
+                if spins > 50_000 {
+                    panic!("harness: try_send_reserved never answered true");
+                }
+            }
+            ctx::op_mark("");
+            ctx::trace(|| format!("reserver {} sent reserved {:#x}", t, r.id));
+            push(shared, r.id, r.inv, true, Entry::Reserve);
+        }
+    };
+    for op in ops {
+        if ctx::aborted() {
+            break;
+        }
+        harness_point();
+        match op {
+            ROp::Reserve => {
+                let id = reserver_id(t, seq);
+                seq += 1;
+                let inv = ctx::stamp();
+                ctx::op_mark("reserve_slot");
+                let got = ch.reserve();
+                ctx::op_mark("");
+                match got {
+                    Some(slot) => {
+                        if out.iter().any(|r| r.slot == slot) {
+                            ctx::report("C08", "slot_reserved_twice", format!("reserve_conc/{}/slot_reserved_twice", kind.name()), format!("reserve_slot() handed thread {} a slot it still holds reserved", t));
+                        }
+                        out.push(Res { slot, id, filled: false, inv });
+                    }
+                    None => push(&shared, id, inv, false, Entry::Reserve),
+                }
+            }
+            ROp::SendOldest | ROp::SendNewest => {
+                if out.is_empty() {
+                    continue;
+                }
+                // the movable ring publishes in reservation order: sending a newer slot first would wait for myself
+                let i = if op == ROp::SendOldest || kind == Kind::UniMoveAtomic { 0 } else { out.len() - 1 };
+                let r = out.remove(i);
+                resolve(&ch, &shared, r, false);
+            }
+            ROp::CancelNewest => {
+                if let Some(r) = out.pop() {
+                    if kind == Kind::UniMoveAtomic && r.filled {
+                        out.push(r);
+                        continue;
+                    }
+                    resolve(&ch, &shared, r, true);
+                }
+            }
+            ROp::PlainSend => {
+                if kind == Kind::UniMoveAtomic && !out.is_empty() {
+                    continue;
+                }
+                let id = reserver_id(t, seq);
+                seq += 1;
+                let inv = ctx::stamp();
+                ctx::op_mark("send");
+                let (accepted, _, _) = do_send(&ch, Entry::Send, id);
+                ctx::op_mark("");
+                push(&shared, id, inv, accepted, Entry::Send);
+            }
+        }
+    }
+    // every reservation is eventually sent (oldest first)
+    while !out.is_empty() && !ctx::aborted() {
+        let r = out.remove(0);
+        resolve(&ch, &shared, r, false);
+    }
+    shared.lock().unwrap().producers_active -= 1;
+}
+
 pub struct DriverCfg {
     pub hold: u32,
     pub spurious_poll: u32,
@@ -297,7 +446,7 @@ pub fn uni_body(p: &UniParams, flush_and_end: bool) -> UniRunData {
 pub fn uni_body_ex(p: &UniParams, flush_and_end: bool, own: bool) -> UniRunData {
     harness::reset();
     let ch: ChanArc = Arc::new(chan::make::<Tracked>(p.kind, p.buffer, p.max_streams, "unused"));
-    let shared = Arc::new(Mutex::new(Shared { events: vec![], producers_active: p.producers.len() }));
+    let shared = Arc::new(Mutex::new(Shared { events: vec![], producers_active: p.producers.len() + p.reservers.len() }));
     // events already pending when the sends start
     for i in 0..p.prefill {
         let id = prefill_id(i);
@@ -332,6 +481,10 @@ pub fn uni_body_ex(p: &UniParams, flush_and_end: bool, own: bool) -> UniRunData 
     for (t, ops) in p.producers.iter().enumerate() {
         let (ch2, shared2, ops2) = (Arc::clone(&ch), Arc::clone(&shared), ops.clone());
         prod_handles.push(shuttle::thread::spawn(move || producer_thread(ch2, shared2, t, ops2)));
+    }
+    for (t, ops) in p.reservers.iter().enumerate() {
+        let (ch2, shared2, ops2) = (Arc::clone(&ch), Arc::clone(&shared), ops.clone());
+        prod_handles.push(shuttle::thread::spawn(move || reserver_thread(ch2, shared2, t, ops2)));
     }
     // wait for the producers. A producer that (by documented design: the crossbeam setter-based sends) waits for room
     // while every stream is parked without a pending wake can never finish: that is a lost wake-up too, and is
@@ -608,6 +761,7 @@ pub fn draw_uni_params(rng: &mut Rng, tier: Tier, kinds: &[Kind], stream_grid: &
         hold: if kind.is_zero_copy() { rng.below(3) as u32 } else { 0 },
         spurious_poll: *rng.pick(&[0, 0, 64, 256]),
         waker_churn: rng.chance(1, 4),
+        reservers: vec![],
     }
 }
 
@@ -641,6 +795,22 @@ pub fn shrink_uni(p: &UniParams) -> Vec<UniParams> {
                     out.push(q);
                 }
                 _ => {}
+            }
+        }
+    }
+    if p.reservers.len() > 1 || (!p.reservers.is_empty() && !p.producers.is_empty()) {
+        for i in 0..p.reservers.len() {
+            let mut q = p.clone();
+            q.reservers.remove(i);
+            out.push(q);
+        }
+    }
+    for i in 0..p.reservers.len() {
+        if p.reservers[i].len() > 1 {
+            for j in (0..p.reservers[i].len()).rev() {
+                let mut q = p.clone();
+                q.reservers[i].remove(j);
+                out.push(q);
             }
         }
     }
@@ -698,7 +868,7 @@ pub fn shrink_uni(p: &UniParams) -> Vec<UniParams> {
 }
 
 pub fn size_uni(p: &UniParams) -> u64 {
-    p.producers.iter().map(|o| o.len() as u64).sum::<u64>() * 4 + p.streams as u64 + p.prefill as u64 + p.buffer as u64
+    (p.producers.iter().map(|o| o.len() as u64).sum::<u64>() + p.reservers.iter().map(|o| o.len() as u64).sum::<u64>()) * 4 + p.streams as u64 + p.prefill as u64 + p.buffer as u64
 }
 
 // =============================================================================================================
